@@ -1,6 +1,6 @@
 import PPModel.Base.Sexp
 import PPModel.Mod.ActionGate
-namespace PP.Driver
+namespace PP.Driver.ActionGateD
 open PP PP.Sexp PP.ActionGate
 
 /-!
@@ -56,4 +56,8 @@ def actionGateHandle : List Sexp → Option Sexp
       pure (.list [rSexp r.1, .list (r.2.map fun ev => .list [ofNat ev.1, ofNat ev.2])])
   | _ => none
 
+end PP.Driver.ActionGateD
+
+namespace PP.Driver
+def actionGateHandle := ActionGateD.actionGateHandle
 end PP.Driver
